@@ -170,7 +170,7 @@ class Ctx:
         return None
 
     # ---------------------------------------------------------------
-    def threaded(self, k, fn, switch=1e-6):
+    def threaded(self, k, fn, switch=1e-5):
         """Run fn(rec, tid) in k threads released by a barrier, under a tiny switch interval.  Each thread records into
         its OWN recorder (the monitor's state is never shared between threads); recorders are merged, and failures
         classified, in the calling thread after all have joined.  An exception inside a thread is a harness error."""
